@@ -9,7 +9,7 @@ from .collections_impl import (
     ContainNestedFieldMixin,
     _CollectionMeta,
 )
-from .fields import verify_type_and_uniqueness
+from .fields import _named_copy, verify_type_and_uniqueness
 
 
 class Deque(
@@ -96,9 +96,10 @@ class Deque(
                 for ind, item in enumerate(self.items):
                     if ind >= len(value):
                         continue
-                    setattr(item, "_name", self._name + f"_{str(ind)}")
-                    item.__set__(temp_st, value[ind])
-                    res.append(getattr(temp_st, getattr(item, "_name")))
+                    element = _named_copy(item, self._name + f"_{str(ind)}")
+                    setattr(item, "_name", element._name)
+                    element.__set__(temp_st, value[ind])
+                    res.append(getattr(temp_st, element._name))
                 for i in range(len(self.items), len(value)):
                     res.append(value[i])
                 value = res
